@@ -23,6 +23,9 @@ type Op struct {
 	Head   []string `json:"head,omitempty"`
 	After  []string `json:"after,omitempty"`
 	Tail   []string `json:"tail,omitempty"`
+	// Reuse: what the handler does with the slices it returned once the result was applied: "scribble" overwrites
+	// and extends them (a reused buffer), "retain" keeps them and expects them to stay as they were
+	Reuse string `json:"reuse,omitempty"`
 }
 
 type Case struct {
@@ -108,6 +111,7 @@ func genWorker(t *rapid.T) Case {
 			op.Head = freshN("head", 3)
 			op.After = freshN("after", 3)
 			op.Tail = freshN("tail", 3)
+			op.Reuse = rapid.SampledFrom([]string{"", "scribble", "retain"}).Draw(t, "reuse")
 		}
 		c.Ops = append(c.Ops, op)
 	}
@@ -225,10 +229,30 @@ func runCase(c Case) (ev.Info, error) {
 		}()
 	}
 	mutatedDuringHandler := false
+	type retainedSlice struct {
+		live []task.Task
+		copy []task.Task
+		step int
+	}
+	var retained []retainedSlice
+	checkRetained := func() error {
+		for _, r := range retained {
+			full := r.live[:len(r.copy)]
+			for i := range r.copy {
+				if full[i] != r.copy[i] {
+					return fmt.Errorf("a slice the handler returned at step %d was modified by later queue operations: it now holds %v, the handler put %v there", r.step, ids(full), ids(r.copy))
+				}
+			}
+		}
+		return nil
+	}
 	absentOp := false
 	mk := func(id string) task.Task { return qh.NewTask(id) }
 
 	for step, op := range c.Ops {
+		if err := checkRetained(); err != nil {
+			return info, err
+		}
 		var optional []task.Task
 		fail := func(format string, a ...any) (ev.Info, error) {
 			return info, fmt.Errorf("step %d %s: %s", step, op.K, fmt.Sprintf(format, a...))
@@ -339,7 +363,8 @@ func runCase(c Case) (ev.Info, error) {
 			}
 			t := w.InFlight
 			res := queue.TaskResult{Status: queue.TaskStatus(op.Status)}
-			var head, after, tail []task.Task
+			// the handler's slices have spare capacity, as a reused buffer would
+			head, after, tail := make([]task.Task, 0, len(op.Head)+3), make([]task.Task, 0, len(op.After)+3), make([]task.Task, 0, len(op.Tail)+3)
 			for _, s := range op.Head {
 				head = append(head, mk(s))
 			}
@@ -381,6 +406,21 @@ func runCase(c Case) (ev.Info, error) {
 			}
 			if got := t.GetFailureCount(); got != fc {
 				return fail("failure count of %s is %d after %s, expected %d", t.GetId(), got, op.Status, fc)
+			}
+			switch op.Reuse {
+			case "scribble":
+				// the handler reuses its buffers: the queue must not be affected
+				for _, sl := range [][]task.Task{head, after, tail} {
+					for i := range sl {
+						sl[i] = mk("SCRIBBLED")
+					}
+					sl = append(sl, mk("SCRIBBLED"), mk("SCRIBBLED"))
+					_ = sl
+				}
+			case "retain":
+				for _, sl := range [][]task.Task{head, after, tail} {
+					retained = append(retained, retainedSlice{sl, append([]task.Task{}, sl...), step})
+				}
 			}
 			mutatedDuringHandler = false
 		default:
@@ -449,7 +489,7 @@ func runCase(c Case) (ev.Info, error) {
 	return info, nil
 }
 
-const rule = "histories of TaskQueue operations (addFirst/addLast/addAfter/addBefore/remove/removeFirst/removeLast/filter/get and handler results Success/Keep/Fail/Repeat with 0-3 head/after/tail tasks) compared with a slice model after every step; part purelist: queue not started, ids from a pool of 5 so duplicates occur; part worker: real worker goroutine parked in a handshake handler, unique ids, operations issued while the handler is running. Non-trivial: an id-addressed operation hit an absent id, or a release carried head/after/tail tasks after the queue was mutated during the handler (worker), or a duplicate id was in play (purelist). Distinct = distinct operation sequences."
+const rule = "histories of TaskQueue operations (addFirst/addLast/addAfter/addBefore/remove/removeFirst/removeLast/filter/get and handler results Success/Keep/Fail/Repeat with 0-3 head/after/tail tasks) compared with a slice model after every step; part purelist: queue not started, ids from a pool of 5 so duplicates occur; part worker: real worker goroutine parked in a handshake handler, unique ids, operations issued while the handler is running; the slices a result carries have spare capacity and are afterwards either scribbled over by the handler (must not affect the queue) or retained (later queue operations must not modify them). Non-trivial: an id-addressed operation hit an absent id, or a release carried head/after/tail tasks after the queue was mutated during the handler (worker), or a duplicate id was in play (purelist). Distinct = distinct operation sequences."
 
 func TestPureList(t *testing.T) {
 	ev.Main(t, ev.Spec[Case]{Property: "C05", Part: "purelist", Rule: rule, Gen: genPure, Run: runCase})
